@@ -47,7 +47,7 @@ def label (s : Sys) : Op → String
       | .at beg wrap =>
         (if wrap then "w.wrap-reset" else if beg ≠ c.head then "w.wrap" else if c.head < m.pos then "w.fit-before-tail" else "w.fit-to-end") ++
           (if s.pending then "+remap" else "")
-  | .wcommit => if s.c.accepting then (if s.c.mapped = s.c.head then "c.empty" else "c.commit") else "c.refused"
+  | .wcommit => (if s.c.accepting then (if s.c.mapped = s.c.head then "c.empty" else "c.commit") else "c.refused") ++ (if s.pending then "" else "+nothing-mapped")
   | .wabort => if s.c.accepting then "a.abort" else "a.refused"
   | .accept b => if b then "acc.1" else "acc.0"
   | .join => "r.join"
